@@ -20,6 +20,7 @@ RULE = (
     'itself reports.  A case is non-trivial when it contains at least one site change; distinct = SHA-1 of the '
     '(states, inner states) arrays.'
 )
+RULE += ' Added in rounds 7-9: copies (copy / deepcopy / pickle) of queried objects pointed at another history; a second live object with the same sites and event table but more frames; rows of every atom must be in chronological table order; framework atoms listed before the diffusing atoms.'
 ASSUMPTIONS = [
     'states / inner states reported by the Transitions object are taken as the history to be logged (their '
     'geometric correctness is C02)',
